@@ -67,15 +67,27 @@ def decorate_exception(exception, message: str):
     return exception
 
 
-@contextlib.contextmanager
-def try_with_lazy_message(lazy_message: Callable[[], str]):
-  """Context manager which reraises exceptions."""
-  try:
-    yield
-  except Exception as exc:  # pylint: disable=broad-except
+class try_with_lazy_message:  # pylint: disable=invalid-name
+  """Context manager which reraises exceptions.
+
+  This is a class (instead of a generator-based context manager), because
+  Python replaces a `StopIteration` raised inside a generator by a
+  `RuntimeError`, so a failing callable that raises `StopIteration` would not
+  be reraised faithfully.
+  """
+
+  def __init__(self, lazy_message: Callable[[], str]):
+    self._lazy_message = lazy_message
+
+  def __enter__(self):
+    return None
+
+  def __exit__(self, exc_type, exc, traceback):
+    if not isinstance(exc, Exception):
+      return False
     try:
-      message = lazy_message()
-    except:  # pylint: disable=broad-except
+      message = self._lazy_message()
+    except:  # pylint: disable=bare-except
       logging.exception('Formatting the debug information failed.')
       raise exc from None
     else:
